@@ -235,6 +235,64 @@ def replayable(scn, desc):
             "params": scn.params, "model_request": req}
 
 
+CLI_FORMS = ["none", "layout_keys_after", "layout_keys_before", "gpg_after", "gpg_before", "verification_keys_more"]
+
+
+def cli_case(case_seed, res):
+    """The gate at the command line. `in-toto-verify` takes verifier keys through three options (--verification-keys,
+    the deprecated --layout-keys, --gpg): every key passed through any of them is a supplied key. An honest, unexpired
+    one-step chain whose layout is signed by its owners is verified with the owners' keys passed through
+    --verification-keys and, in all but the control, one more key that did not sign passed through another option
+    (before or after on the command line) or the same one."""
+    import random
+    from harness import cli
+    from harness.props import c18
+    rng = random.Random(case_seed)
+    form = rng.choice(CLI_FORMS)
+    if form.startswith("gpg") and not W.gpg_available():
+        form = "layout_keys_after"
+    root = scen.new_root()
+    cwd = os.getcwd()
+    try:
+        ch = scen.gen_chain(rng, root, n_steps=1, n_insp=0, thresholds=(1,), max_funcs=1, fmt_mode="mixed")
+        scn = scen.build(ch, root, rng)
+        scn.materialise(root)
+        owners = [k for k in W.pool() if k.keyid in scn.keys]
+        argv = ["--layout", os.path.join(root, "root.layout"), "--link-dir", os.path.join(root, "links")]
+        own = ["--verification-keys"] + [c18.write_pub_pem(k, root) for k in owners]
+        rsa = [k for k in W.pool() if k not in ch.owners and k.kind == "rsa"]       # (--layout-keys reads rsa keys)
+        if not rsa and form.startswith("layout_keys"):
+            form = "verification_keys_more"
+        stranger = rsa[0] if rsa else [k for k in W.pool() if k not in ch.owners][0]
+        if form == "none":
+            argv += own
+        elif form == "verification_keys_more":
+            argv += own + [c18.write_pub_pem(stranger, root)]
+        elif form.startswith("layout_keys"):
+            extra = ["--layout-keys", c18.write_pub_pem(stranger, root)]
+            argv += (own + extra) if form.endswith("after") else (extra + own)
+        else:
+            g = W.gpg_key("no_sub")
+            extra = ["--gpg", g.keyid, "--gpg-home", g.gpg_home]
+            argv += (own + extra) if form.endswith("after") else (extra + own)
+        os.chdir(os.path.join(root, "product"))
+        st, _o, _e = cli.run_main("in_toto_verify", argv)
+    finally:
+        os.chdir(cwd)
+        scen.drop_root(root)
+    expect_ok = form == "none"
+    case = {"op": "cli_keys", "case_seed": case_seed, "form": form, "layout_fmt": ch.layout_fmt, "owners": [k.kind for k in owners]}
+    ok = st == 0
+    res.case({"family": "cli_keys", "form": form, "layout_fmt": ch.layout_fmt, "status": st}, True, ok == expect_ok)
+    res.count("family_cli_keys")
+    res.count("cli_form_" + form)
+    if ok and not expect_ok:
+        res.fail("oracle", case, {"why": "in-toto-verify exited 0 although a key passed on the command line (%s) has no signature "
+                                         "on the layout: every supplied key must have a valid signature" % form, "status": st})
+    elif expect_ok and not ok:
+        res.fail("disagree", case, {"op": "cli_keys", "why": "honest, correctly signed, unexpired chain rejected at the command line", "status": st})
+
+
 FAMILIES = ["keys", "expiry", "leaf", "leaf", "parse_equal", "sig", "honest"]
 
 
@@ -246,6 +304,8 @@ def shard(seed, idx, n, tier):
         one_case(rng, fam, tier, res)
     for _ in range(max(2, n // 4)):
         in_memory_case(rng, res)
+    for _ in range(max(2, n // 12)):
+        cli_case(rng.randrange(10**9), res)
     return res
 
 
@@ -320,6 +380,10 @@ def rebuild(case):
 def replay(case):
     if case.get("op") == "expiry":
         return {"model": core.driver().call(case)}
+    if case.get("op") == "cli_keys":
+        res = core.Result()
+        cli_case(case["case_seed"], res)
+        return {"case": case, "samples": res.samples, "failures_on_replay": res.failures}
     scn = rebuild(case)
     import os
     os.makedirs(scn.root, exist_ok=True)
